@@ -99,4 +99,14 @@ CLAIMED = {
              'model and its correspondence, harness.',
         technique='machine-checked Coq proof about a hand-written executable model + vm_compute correspondence with the '
                   'implementation; exact-rational search'),
+    'C08': dict(
+        text='Partial. Proved about the generated code: is_point_inside is the parity of the number of edges whose crossing test '
+             'succeeds (any vertex count); the crossing test is exactly "closed segment meets closed ray" (sound and complete for '
+             'non-parallel operands, so the documented vertex fringe case is inside the theorem); the bound-rect variant and '
+             'point_relationship are the stated case splits; is_point_on_edge is "some segment within the tolerance". That parity '
+             'equals containment (Jordan curve theorem) is not proved: all containment methods, on-edge queries, polygon_relationship / '
+             'does_polygon_touch (against unit-cell sets), Face3D.is_point_on_face and Polyface3D.is_point_inside are searched '
+             'against exact winding-number containment.',
+        note='Partial: Jordan curve theorem not proved; 3D containment validated only. Trusted: Coq kernel, py2coq, harness.',
+        technique=T_Q),
 }
